@@ -45,6 +45,9 @@ const (
 	rSetTimeout
 	rAddVote
 	rProbe
+	rGetBest
+	rGetHeaviest
+	rGetNotarized
 )
 
 type rOp struct {
@@ -55,7 +58,8 @@ type rOp struct {
 var rFuncNames = map[int]string{rSetPhase: "SetPhase", rResetPhase: "ResetPhase", rAddShare: "AddVRFShare", rAddNotarized: "AddNotarizedBlock",
 	rRestart: "Restart", rSetFinalizing: "SetFinalizing", rFinalize: "Finalize", rSetFinalized: "SetFinalized",
 	rResetIfNotFinalized: "ResetFinalizingStateIfNotFinalized", rIncTimeout: "IncrementTimeoutCount", rSetTimeout: "SetTimeoutCount",
-	rAddVote: "AddTimeoutVote", rProbe: "IsFinalized"}
+	rAddVote: "AddTimeoutVote", rProbe: "IsFinalized",
+	rGetBest: "GetBestRankedNotarizedBlock", rGetHeaviest: "GetHeaviestNotarizedBlock", rGetNotarized: "GetNotarizedBlocks"}
 
 func (o rOp) String() string {
 	switch o.Kind {
@@ -185,6 +189,12 @@ func c37Body(progs [][]rOp) func() {
 						r.AddTimeoutVote(op.Arg, c37Nodes[1].GetKey())
 					case rProbe:
 						rec.OK = r.IsFinalized()
+					case rGetBest:
+						rec.OK = r.GetBestRankedNotarizedBlock() != nil
+					case rGetHeaviest:
+						rec.OK = r.GetHeaviestNotarizedBlock() != nil
+					case rGetNotarized:
+						rec.OK = len(r.GetNotarizedBlocks()) > 0
 					}
 					rec.Ret = vsync.Tick()
 					rec.Done = true
@@ -359,11 +369,13 @@ func c37Scenarios(thorough bool) scenarioSet {
 		{rSetPhase, int(round.Verify)}, {rSetPhase, int(round.Notarize)}, {rSetPhase, int(round.Share)}, {rResetPhase, int(round.ShareVRF)},
 		{rAddShare, 0}, {rAddShare, 1}, {rAddShare, 2}, {rAddNotarized, 1}, {rRestart, 0},
 		{rSetFinalizing, 0}, {rFinalize, 1}, {rSetFinalized, 0}, {rResetIfNotFinalized, 0},
-		{rIncTimeout, 0}, {rSetTimeout, 1}, {rSetTimeout, 2}}
+		{rIncTimeout, 0}, {rSetTimeout, 1}, {rSetTimeout, 2}, {rGetBest, 0}, {rGetHeaviest, 0}}
 	concAlpha := []rOp{
 		{rSetPhase, int(round.Verify)}, {rSetPhase, int(round.Notarize)}, {rResetPhase, int(round.ShareVRF)},
 		{rAddShare, 0}, {rAddShare, 1}, {rAddNotarized, 1}, {rRestart, 0},
-		{rSetFinalizing, 0}, {rSetFinalized, 0}, {rResetIfNotFinalized, 0}, {rIncTimeout, 0}, {rSetTimeout, 2}}
+		{rSetFinalizing, 0}, {rSetFinalized, 0}, {rResetIfNotFinalized, 0}, {rIncTimeout, 0}, {rSetTimeout, 2},
+		// read accessors that take the round mutex: every operation must return also when readers and writers interleave
+		{rGetBest, 0}, {rGetHeaviest, 0}, {rGetNotarized, 0}}
 	depth, bound := 4, 2
 	if thorough {
 		depth, bound = 5, 3
